@@ -171,6 +171,17 @@ theorem sim_assignSub {n : Nat} (hS : SimS n) {K : SCtx} {k : Ctx} {sub : Bool} 
       fun h => h.elim, fun h => absurd h hq⟩
     simp [absEnv, absEnvC, h1, h2]
 
+theorem expandWord_nostatus (v : List (Str × Str)) (a b : Nat) :
+    ∀ w : Word, w.all partNoStatus = true → expandWord v a w = expandWord v b w
+  | [], _ => rfl
+  | p :: r, h => by
+    simp only [List.all_cons, Bool.and_eq_true] at h
+    rw [expandWord, expandWord, expandWord_nostatus v a b r h.2]
+    cases p with
+    | lit s => rfl
+    | var x => rfl
+    | status => simp [partNoStatus] at h
+
 theorem sim_echoSub {n : Nat} (hS : SimS n) {K : SCtx} {k : Ctx} {sub : Bool} {s : St}
     (w1 : Word) (p : Prog) (w2 : Word)
     (hst : Stat K k sub) (hs : supCmd K (.echoSub w1 p w2) = true) (hd : Dyn K k sub s)
@@ -178,7 +189,7 @@ theorem sim_echoSub {n : Nat} (hS : SimS n) {K : SCtx} {k : Ctx} {sub : Bool} {s
     Rel (Post K k sub False q s) (run (n+1) (.cmd (.echoSub w1 p w2)) s)
       (sem (n+1) k (.cmd (.echoSub w1 p w2)) (absEnv s)) := by
   simp only [supCmd, Bool.and_eq_true, Bool.not_eq_eq_eq_not, Bool.not_true] at hs
-  obtain ⟨⟨hp0, hne⟩, hsup⟩ := hs
+  obtain ⟨⟨⟨hp0, hne⟩, hsup⟩, hw2⟩ := hs
   have hne' := subNe_of (K := K) hne
   have h0 := sim_subrun hS p [] k.depth hst hne' hp0 hsup hd hl hx
   have hrun : run (n+1) (.cmd (.echoSub w1 p w2)) s =
@@ -196,7 +207,7 @@ theorem sim_echoSub {n : Nat} (hS : SimS n) {K : SCtx} {k : Ctx} {sub : Bool} {s
       | some (_, e1) =>
         some (.norm, ({ absEnv s with
           out := (absEnv s).out ++ (expandWord (absEnv s).vars (absEnv s).status w1 ++ (stripNl e1.out ++
-            (expandWord (absEnv s).vars (absEnv s).status w2 ++ [10]))), status := 0 } : Env)) := by
+            (expandWord (absEnv s).vars e1.status w2 ++ [10]))), status := 0 } : Env)) := by
     rw [sem]; rfl
   rw [hrun, hsem]
   cases hr : foldStmts (fun st => run n (.stmt st)) p (subshellOf s []) with
@@ -208,7 +219,8 @@ theorem sim_echoSub {n : Nat} (hS : SimS n) {K : SCtx} {k : Ctx} {sub : Bool} {s
     simp only [Rel, Post]
     refine ⟨?_, hd.congr rfl rfl rfl rfl rfl rfl rfl rfl, ⟨rfl, rfl, rfl⟩, ⟨rfl, rfl⟩, hp,
       fun h => h.elim, fun _ hne => by simp at hne⟩
-    simp [absEnv, absEnvC, h2]
+    have hw := expandWord_nostatus s.vars e1.status s.lastExit.code w2 hw2
+    simp [absEnv, absEnvC, h2, hw]
 
 theorem sim_call {n : Nat} (hS : SimS n) {K : SCtx} {k : Ctx} {sub : Bool} {s : St} (f : Str)
     (body : Stmt) (hf : lookupFn s.funcs f = some body)
